@@ -674,9 +674,69 @@ def run_ifc_ff_probe(sh):
     G.unload(mod)
 
 
+INNERC_SRC = """
+from pymtl3 import *
+LOG = []
+class ICh(Component):
+  def construct(s):
+    s.in_ = InPort(8); s.x = OutPort(8); s.y = OutPort(8)
+    @update
+    def blk_a():
+      LOG.append('a'); s.x @= s.in_ + 1
+    @update
+    def blk_b():
+      LOG.append('b'); s.y @= s.in_ + 2
+class ICh2(ICh):
+  pass
+class IMid(Component):
+  def construct(s, order):
+    s.in_ = InPort(8); s.c = ICh(); s.c.in_ //= s.in_
+    a, b = s.c.get_update_block('blk_a'), s.c.get_update_block('blk_b')
+    s.add_constraints( U(a) < U(b) if order == 'ab' else U(b) < U(a) )       # the wrapper orders two blocks of the child it instantiates
+class ITop(Component):
+  def construct(s, order):
+    s.in_ = InPort(8); s.m = IMid(order); s.m.in_ //= s.in_
+"""
+
+
+def run_inner_constraint_probe(sh):
+  """an ANCESTOR orders two blocks that both live in the child it wraps; the child is replaced (by class, by object, twice): the
+  explicit constraints of the design - by host and block name - are those of a design built from scratch, no block of the removed
+  component is left in them, and the order is honoured in simulation"""
+  from pymtl3 import DefaultPassGroup
+  from vlib import specgen as G
+  mod = G.load_source(INNERC_SRC, "c15innerc")
+  def cons(top):
+    out = set()
+    for (x, y) in top.get_all_explicit_constraints()[0]:
+      try: out.add(((repr(top.get_update_block_host_component(x)), x.__name__), (repr(top.get_update_block_host_component(y)), y.__name__)))
+      except Exception as e: out.add(("stale block object", getattr(x, "__name__", "?"), getattr(y, "__name__", "?"), type(e).__name__))
+    return out
+  try:
+    for order in ("ab", "ba"):
+      ref = mod.ITop(order); ref.elaborate(); want = cons(ref)
+      for hist in (["class"], ["obj"], ["class", "obj"]):
+        top = mod.ITop(order); top.elaborate()
+        for how in hist:
+          if how == "class": top.replace_component(top.m.c, mod.ICh2)
+          else: top.replace_component_with_obj(top.m.c, mod.ICh2())
+        sh.count("ancestor_constraints_between_two_child_blocks_checked")
+        got = cons(top)
+        if got != want:
+          sh.violation("explicit-constraints-differ-from-a-design-built-from-scratch", {"history": hist, "declared": "U(c.blk_a) < U(c.blk_b)" if order == "ab" else "U(c.blk_b) < U(c.blk_a)",
+                       "only_after_replacement": sorted(map(str, got - want))[:4], "missing": sorted(map(str, want - got))[:4]}, case=("innerc", order, tuple(hist))); continue
+        top.apply(DefaultPassGroup()); top.sim_reset(); mod.LOG.clear(); top.in_ @= 3; top.sim_eval_combinational()
+        seq = [x for x in mod.LOG if x in "ab"]
+        if seq[:2] != list(order):
+          sh.violation("explicit-constraint-on-child-not-honoured-after-replacement", {"history": hist, "required": order, "executed": seq}, case=("innerc-sim", order, tuple(hist)))
+  finally:
+    G.unload(mod)
+
+
 def run_shard(sh):
   if sh.idx == 0: run_badclass_probe(sh)
   if sh.idx == 1: run_ifc_ff_probe(sh)
+  if sh.idx == 2: run_inner_constraint_probe(sh)
   for case in range(max(3, sh.params["histories"] // 3)):
     run_cl_case(sh, case)
   for case in range(max(4, sh.params["histories"] // 2)):
